@@ -29,6 +29,7 @@ EXPLANATION = (
     ' (R5, shared with C20.R1) no code assigns an attribute of a shared sensor definition from outside.'
     ' (R6, shared with C16.R1) the single reads (_read_sensor / _read_setting) request ceil(size_/2) registers at the sensor and decode from the first byte of the answer.'
     ' (R7, shared with C13.R2) decode_bitmap visits bit positions 0..31 in order: every bit of a bitmap sensor\'s own registers shows in its value.'
+    ' (R8, shared with C14.R1) every sensor\'s registers lie inside the block its bulk request fetched, in every capability state.'
 )
 
 GROUP_BASES = ("EcoModeV1", "Schedule")
@@ -99,6 +100,16 @@ def check(ctx: Ctx, rep: Report):
     r2_bitmap_fn(ctx, _sub7)
     for o in _sub7.obligations:
         rep.obligations.append(type(o)("C12.R7", o.key, o.where, o.what, o.status, o.detail))
+    rep.rule("C12.R8", "the bytes a sensor decodes were fetched: its registers lie inside the block its bulk request asked for, in every capability state (shared with C14.R1) - a value made of absent bytes is the reading of no register", 1)
+    from .c14 import check as _c14_check
+    _sub8 = Report("C14", rep.tier)
+    _c14_check(ctx, _sub8)
+    _n8 = 0
+    for o in _sub8.obligations:
+        if o.rule == "C14.R1" and o.status != "OK":
+            _n8 += 1
+            rep.obligations.append(type(o)("C12.R8", o.key, o.where, o.what, o.status, o.detail))
+    rep.ok("C12.R8", "window:summary", "goodwe/", "%d window obligations of C14.R1 evaluated, %d not satisfied" % (sum(1 for o in _sub8.obligations if o.rule == "C14.R1"), _n8))
     rep.rule("C12.R4", "the byte count announced by the type's docstring equals the bytes its decoder consumes", 25)
     prog = ctx.prog
     tabs, dec = tables_ctx(ctx), decoders_ctx(ctx)
